@@ -537,6 +537,9 @@ try:
 except RecursionError:
     sys.setrecursionlimit(100000)
     print("VF18" + json.dumps({"loaded": False})); sys.exit(0)
+except Exception as e:
+    sys.setrecursionlimit(100000)
+    print("VF18" + json.dumps({"loaded": False, "exc": type(e).__name__ + ": " + str(e)[:200]})); sys.exit(0)
 sys.setrecursionlimit(100000)
 tags = sorted({t for (t, mm, q) in vf_spy18d.log if mm == "pdeep"})
 try:
@@ -563,6 +566,19 @@ def _deep_run(d, run):
     return json.loads(line[0][4:])
 
 
+def _deep_twin(d, run):
+    d2 = tempfile.mkdtemp(prefix="vf-c18d2-")
+    try:
+        for fn in ("vf_spy18d.py", "pdeep.py"):
+            shutil.copy2(os.path.join(d, fn), os.path.join(d2, fn))
+        twin = _deep_run(d2, run)
+    finally:
+        shutil.rmtree(d2, ignore_errors=True)
+    if "error" in twin:
+        raise RuntimeError(f"C18 stack-budget arm: empty-cache twin of run {run} broke down: {twin['error']}")
+    return twin
+
+
 def check_deep(ctx, case):
     d = tempfile.mkdtemp(prefix="vf-c18d-")
     try:
@@ -578,21 +594,19 @@ def check_deep(ctx, case):
                 raise RuntimeError(f"C18 stack-budget arm: run #{ri} {run} broke down: {got['error']}")
             outcomes.append(got.get("loaded"))
             if not got["loaded"]:
+                if got.get("exc") and ri > 0:
+                    # the import failed with something other than RecursionError: a violation iff the identical run over an empty cache loads the module
+                    twin = _deep_twin(d, run)
+                    if twin["loaded"]:
+                        raise Violation("run-failed", case, f"stack-budget run #{ri} {run} over the cache left by runs {case['deep'][:ri]} (loaded: {outcomes[:ri]}): "
+                                        f"importing pdeep fails with {got['exc']}; the same run over an empty cache loads it")
                 continue
             want = None if run["checker"] == "plain" else run["checker"]
             cls = classify(got)
             if cls != want:
                 # differential confirmation: the identical run over an EMPTY cache.  A tree that treats a too-deep module uniformly (whatever it
                 # does with it) is not history-dependent and is not reported by this arm.
-                d2 = tempfile.mkdtemp(prefix="vf-c18d2-")
-                try:
-                    for fn in ("vf_spy18d.py", "pdeep.py"):
-                        shutil.copy2(os.path.join(d, fn), os.path.join(d2, fn))
-                    twin = _deep_run(d2, run)
-                finally:
-                    shutil.rmtree(d2, ignore_errors=True)
-                if "error" in twin:
-                    raise RuntimeError(f"C18 stack-budget arm: twin of run #{ri} {run} broke down: {twin['error']}")
+                twin = _deep_twin(d, run)
                 if not twin["loaded"] or classify(twin) == cls:
                     continue
                 raise Violation("stale-instrumentation", case, f"stack-budget run #{ri} {run} over the cache left by runs {case['deep'][:ri]} (loaded: {outcomes[:ri]}): "
